@@ -39,6 +39,7 @@ def dispatch (line : String) : String :=
   | "c02" :: args => c02 args
   | "c03" :: args => c03 args
   | "c03t" :: args => c03t args
+  | "c03x" :: args => c03x args
   | "c04" :: args => c04 args
   | "c04f" :: args => c04f args
   | _ => "bad-op"
